@@ -640,8 +640,8 @@ func main() {
 			for _, k := range kibs {
 				for _, a := range atimes {
 					for _, m := range marks {
-						if n == 4 && (k == 4 || m == "R") {
-							continue // 4 entries: payloads 1 and 2 KiB, marks unmarked / stored only
+						if n == 4 && (k == 4 || m == "R" || a == 5 && len(prefix) >= 2) {
+							continue // 4 entries: payloads 1 and 2 KiB, marks unmarked / stored only, in-grace time only in the first two
 						}
 						if r.Quick() && n == 3 && len(prefix) == 2 && (k != 1 || a == 5) {
 							continue // quick, 3 entries: the third is 1 KiB and not inside the grace period of the base time
